@@ -12,6 +12,16 @@ pub(crate) struct SourceList<'l, Data> {
     sources: Vec<SourceEntry<'l, Data>>,
 }
 
+#[cfg(calloop_verif)]
+impl<'l, Data> SourceList<'l, Data> {
+    pub(crate) fn verif_counts(&self) -> (usize, usize) {
+        (
+            self.sources.len(),
+            self.sources.iter().filter(|s| s.source.is_some()).count(),
+        )
+    }
+}
+
 impl<'l, Data> SourceList<'l, Data> {
     pub(crate) fn new() -> Self {
         SourceList {
